@@ -526,7 +526,7 @@ package hermes
 // Fc(z): convective N flux through the lower boundary of layer z (upstream concentration), dr(z): N leaving through the drain,
 // J(k): dispersive flux from layer index k to k+1.
 //@ func nmove
-//@   serves C02, C07
+//@   serves C02, C07, C06
 //@   define pe(k) = max(0.0, min(old(g.PE[k]), old(g.C1[k]) - 0.5))
 //@   define c1a(k) = ite(subd == 1, ite(old(g.C1[k]) - pe(k) < 0, 0.0, old(g.C1[k]) - pe(k)), old(g.C1[k]))
 //@   define vol(k) = g.WG[0][k]*g.DZ.Num*100
@@ -543,7 +543,11 @@ package hermes
 //@   requires drain: 0 <= g.DRAIDEP && g.DRAIDEP <= 21
 //@   requires crop: 0 <= g.AKF.Index && g.AKF.Index < 300
 //@   requires water: forall(k, 0, g.N+1, g.WG[0][k] > 0)
+//@   requires capacity: forall(k, 0, g.N+1, g.W[k] > 0)
 //@   requires surfacedrain: g.QDRAIN == 0 || g.FLUSS0 > 0
+// every division of the transport routine has a non-zero denominator under these preconditions (over the reals a division
+// by zero is where a NaN is born; found necessary by the encoder cross-check: with W == 0 the real routine returns NaN)
+//@   safety[C06] div
 //@   ensures[C02.a] concdef: C(0) == 0 && C(g.N+1) == 0 && forall(z, 1, g.N+1, C(z) == conc(z))
 //@   ensures[C02] konv: forall(z, 1, g.N+1, l.KONV[z-1]*g.DZ.Num == Fc(z) - Fc(z-1) + dr(z))
 //@   ensures[C02] disp: forall(k, 0, g.N, l.DISP[k] == J(k-1) - J(k))
@@ -960,7 +964,7 @@ package hermes
 //@   ensures[C07,C02] mineralsum: sum(z, 0, floor(mix()), 4, g.C1[z]) == sum(z, 0, floor(mix()), 4, old(g.C1[z]))
 //@   ensures[C07,C02] below: forall(k, 4, 21, g.NFOS[k] == old(g.NFOS[k]) && g.NAOS[k] == old(g.NAOS[k]) && g.C1[k] == old(g.C1[k]))
 //@   ensures[C10] schedule: unchanged(g.EINTE, g.EINT)
-//@ loop Nitro@"for z := 0; z < int(mixtief); z++ { // Vollstaendige"
+//@ loop Nitro@"for z := 0; z < int(mixtief); z++ { NFOSUM = NFOSUM + g.NFOS[z]"
 //@   invariant range: 0 <= \i && \i <= int(mixtief) && 0 <= int(mixtief) && int(mixtief) <= 4 && mixtief == real(int(mixtief))
 //@   invariant sums: NFOSUM == sum(z, 0, \i, 4, g.NFOS[z]) && NAOSUM == sum(z, 0, \i, 4, g.NAOS[z]) && nmifosum == sum(z, 0, \i, 4, g.MINFOS[z]) && nmiaosum == sum(z, 0, \i, 4, g.MINAOS[z]) && CSUM == sum(z, 0, \i, 4, g.C1[z])
 //@ loop Nitro@"for z := 0; z < int(mixtief); z++ { g.NFOS[z] = NFOSUM / mixtief"
@@ -1636,7 +1640,7 @@ package hermes
 // error, so a file with a gap - inside a year, at the end of a year or of whole years - never loads.
 //@ global define ydays(y) = ite(leap(y), 366, 365)
 //@ global define nextday(py, pd, y, d) = (y == py && d == pd + 1) || (y == py + 1 && d == 1 && pd == ydays(py))
-//@ region ReadWeatherCSV#nextrecord from "if first { // failsave" to "if d.datetime.YearDay() != T {"
+//@ region ReadWeatherCSV#nextrecord from "if first { first = false" to "if d.datetime.YearDay() != T {"
 //@   serves C04
 //@   ghost var py int
 //@   ghost var pd int
@@ -1646,7 +1650,7 @@ package hermes
 //@   ensures index: T == d.datetime.YearDay() && !first
 //@   ensures yearslot: yrz == ite(old(first), 1, ite(d.datetime.Year() == py, old(yrz), old(yrz) + 1))
 //@   return-ensures error: !isnil(result0)
-//@ region ReadWeatherCZ#nextrecord from "if first { // failsave" to "if d.datetime.YearDay() != T {"
+//@ region ReadWeatherCZ#nextrecord from "if first { first = false" to "if d.datetime.YearDay() != T {"
 //@   serves C04
 //@   ghost var py int
 //@   ghost var pd int
